@@ -638,8 +638,22 @@ class Exec:
         if self._panics(n):
             return [st.fork(exit=("panic",))]
         callee = n.get("callee") or ""
-        if n.get("f") is not None and n["f"].get("mac") == "vec" or n.get("mac") == "vec":
-            arrs = [x for x in walk(n) if x.get("k") == "array"]
+        if (n.get("f") is not None and n["f"].get("mac") == "vec" or n.get("mac") == "vec") and not callee.endswith("from_elem"):
+            # `vec![a, b, c]` (the list form; `vec![x; n]` is a plain from_elem call)
+            arrs = []
+            for a_ in n["args"]:
+                stack_ = [a_]
+                while stack_ and not arrs:
+                    y_ = stack_.pop(0)
+                    if isinstance(y_, dict):
+                        if y_.get("k") == "array":
+                            arrs.append(y_)
+                            break
+                        if y_.get("k") == "call" and (y_.get("callee") or "").endswith("from_elem"):
+                            continue
+                        stack_.extend(v_ for v_ in y_.values() if isinstance(v_, (dict, list)))
+                    elif isinstance(y_, list):
+                        stack_.extend(y_)
             if arrs:
                 return [p if p.exit is not None else p.fork(val=("vec", tuple(vs))) for (p, vs) in self.evals(arrs[0]["xs"], st)]
         out = []
